@@ -294,6 +294,7 @@ impl<'a> RuleGen<'a> {
         }
         if let Some((c, _)) = self.bound_alphas.iter().find(|a| a.1 == 1).cloned() { if self.r.chance(1, 2) { let nd = self.r.pick(&NODES).to_string(); m.feats.push((nd, FV::Alpha(c))); } }
         if self.r.chance(1, 10) { m.feats.push(("place".into(), FV::Neg)); }
+        if self.r.chance(1, 8) { let nd = self.r.pick(&NODES[..4]).to_string(); let v = self.binval(); m.feats.push((nd, v)); }
         if allow_supra && self.c.supras && self.r.chance(1, 4) {
             match self.r.below(4) {
                 0 => { let v = self.binval(); m.feats.push(("stress".into(), v)) }
